@@ -9,6 +9,7 @@ import (
 	"github.com/tychoish/fun"
 	"github.com/tychoish/fun/adt"
 	"github.com/tychoish/fun/ers"
+	"github.com/tychoish/fun/internal"
 	"github.com/tychoish/fun/risky"
 )
 
@@ -235,6 +236,7 @@ func (dq *Deque[T]) waitPushAfter(ctx context.Context, it T, afterGetter func() 
 		case <-ctx.Done():
 			return ctx.Err()
 		default:
+			internal.VerifPoint("pubsub.wait.before-cond-wait")
 			cond.Wait()
 		}
 
@@ -468,6 +470,7 @@ func (it *element[T]) wait(ctx context.Context, direction dqDirection) error {
 		case <-ctx.Done():
 			return ctx.Err()
 		default:
+			internal.VerifPoint("pubsub.wait.before-cond-wait")
 			cond.Wait()
 		}
 	}
